@@ -87,6 +87,13 @@ def run(a, seed, t_start):
         return 3
 
     timeout_s = a.timeout or (20 if a.tier == "quick" else 40)
+    # which portfolio member discharged an obligation last time (committed file; only reorders the portfolio)
+    try:
+        with open(os.path.join(VERIF, "contracts", "solver_hints.json")) as f:
+            HINTS = json.load(f)
+    except (OSError, ValueError):
+        HINTS = {}
+    backends_seen = {}
     # ------------------------------------------------------------------ deductive tier
     fun_reports = []
     all_obls = []
@@ -125,11 +132,11 @@ def run(a, seed, t_start):
         rest = [o for o in obls if _match_known(kf, cname, norm_id(o.id)) is None]
         if kn:
             discharge(kn, timeout_ms=5000)
-        discharge(rest, timeout_ms=timeout_s * 1000)
+        discharge(rest, timeout_ms=timeout_s * 1000, hints=HINTS.get(cname))
         # one escalation (x3) for anything left open
         open_ = [o for o in rest if (o.verdict != "discharged") and not o.expect_refuted]
         if open_:
-            discharge(open_, timeout_ms=timeout_s * 3000)
+            discharge(open_, timeout_ms=timeout_s * 3000, hints=HINTS.get(cname))
         solver_time += sum(o.time for o in obls)
         trusted |= r.trusted_used
         byid = {o.id: o for o in obls}
@@ -163,6 +170,8 @@ def run(a, seed, t_start):
         )
         for o in n_real:
             all_obls.append((cname, relpath, o))
+            if o.verdict == "discharged" and o.backend in ("z3/ematch", "z3-4.8", "cvc5"):
+                backends_seen.setdefault(cname, {})[o.id] = o.backend
     if not all_obls and not out_of_reach:
         print(f"CHECKER-ERROR property={prop}: zero obligations generated")
         return 3
@@ -273,6 +282,13 @@ def run(a, seed, t_start):
         "wall_s": round(time.time() - t_start, 2),
         "violations": n_viol,
     }
+    try:
+        # (not committed: tools/gen_hints.py merges these into contracts/solver_hints.json)
+        os.makedirs(os.path.join(VERIF, "out"), exist_ok=True)
+        with open(os.path.join(VERIF, "out", f"backends_{prop}.json"), "w") as f:
+            json.dump(backends_seen, f, indent=1)
+    except OSError:
+        pass
     os.makedirs(a.evidence_dir, exist_ok=True)
     with open(os.path.join(a.evidence_dir, f"{prop}.json"), "w") as f:
         json.dump(ev, f, indent=1, default=str)
